@@ -24,7 +24,7 @@ BOUNDS = {"quick": "full product with all 8 lengths; hierarchies depth 3, 2^3 in
 
 LENS_Q = [0, 1, 24, 256, 65536]
 LENS_T = [0, 1, 23, 24, 255, 256, 65535, 65536]
-NAMES = ["fw.bin", "deadbeef.bin", "cafe/f00d", "./abcdef", "a b.bin", "zażółć_€.bin"]
+NAMES = ["fw.bin", "deadbeef.bin", "cafe/f00d", "./abcdef", "a b.bin", "zażółć_€.bin", "0x0e0aa000", "0X0E0AA000"]
 
 
 def content(n, salt=0):
@@ -265,8 +265,86 @@ def run_hier(case, agg):
         agg.ok(key, "ok:hierarchy", sample={"hierarchy": label})
 
 
+# -- the same description created twice in one process, referenced file changed in between -------------------
+
+CHANGE_FORMS = ["digest-file", "size-file", "digest-file_direct", "payload-path", "dependency-path", "digest-envelope-path",
+                "inline-dependency-payload-path", "inline-dependency-size-file", "inline-dependency-digest-file"]
+
+
+def change_cases(tier):
+    return [{"form": f, "order": o} for f in CHANGE_FORMS for o in ("grow", "shrink")]
+
+
+def run_change(case, agg):
+    form = case["form"]
+    a, b = (content(40, 1), content(300, 2)) if case["order"] == "grow" else (content(300, 2), content(40, 1))
+    key = h8("c05c", case)
+    label = f"two creations in one process, {form}, referenced file changed in between ({case['order']})"
+    with fresh_dir("c05c") as root:
+        f = os.path.join(root, "app.bin")
+
+        def make_desc():
+            inner = {"suit-integrated-payloads": {"#app": f}} if form == "inline-dependency-payload-path" else {}
+            child = gen.child_env(seq=5, extra=inner)
+            if form == "inline-dependency-size-file":
+                child["SUIT_Envelope_Tagged"]["suit-manifest"]["suit-validate"] = [{"suit-directive-override-parameters": {"suit-parameter-image-size": {"file": f}}}]
+            if form == "inline-dependency-digest-file":
+                child["SUIT_Envelope_Tagged"]["suit-manifest"]["suit-validate"] = [{"suit-directive-override-parameters": {
+                    "suit-parameter-image-digest": gen.digest("cose-alg-sha-256", {"file": f})}}]
+            params, env = {"suit-parameter-uri": "#x"}, {}
+            if form == "digest-file":
+                params["suit-parameter-image-digest"] = gen.digest("cose-alg-sha-256", {"file": f})
+            elif form == "size-file":
+                params["suit-parameter-image-size"] = {"file": f}
+            elif form == "digest-file_direct":
+                params["suit-parameter-image-digest"] = gen.digest("cose-alg-sha-256", {"file_direct": f})
+            elif form == "payload-path":
+                env["suit-integrated-payloads"] = {"#x": f}
+            elif form == "dependency-path":
+                env["suit-integrated-dependencies"] = {"#x": f}
+            elif form == "digest-envelope-path":
+                params["suit-parameter-image-digest"] = gen.digest("cose-alg-sha-256", {"envelope": f})
+            else:
+                env["suit-integrated-dependencies"] = {"#x": child}
+                params["suit-parameter-image-size"] = {"envelope": copy.deepcopy(child)}
+            return gen.minimal(man={"suit-install": [{"suit-directive-override-parameters": params}]}, env=env)
+
+        def write(data):
+            if form in ("dependency-path", "digest-envelope-path"):
+                # the file is an envelope; vary its content through a payload
+                data = impl.tool_create(gen.child_env(seq=6 + len(data), extra={"suit-integrated-payloads": {"#p": data.hex()}}))
+            open(f, "wb").write(data)
+        try:
+            write(a)
+            first = impl.tool_create(make_desc())
+            write(b)
+            second = impl.tool_create_main(make_desc(), root, "json")
+            # reference for the second creation: a fresh interpreter that never saw the first content
+            import subprocess, sys, json as _json
+            dp = os.path.join(root, "ref.json")
+            impl.dump_desc(make_desc(), dp, "json")
+            env = dict(os.environ, PYTHONPATH=os.environ["SVMC_REPO"], PYTHONDONTWRITEBYTECODE="1")
+            pr = subprocess.run([sys.executable, "-c", "import sys, logging; logging.disable(logging.CRITICAL); from suit_generator import cmd_create; "
+                                 "cmd_create.main(input_file=sys.argv[1], input_format='AUTO', output_file=sys.argv[2])", dp, os.path.join(root, "ref.suit")],
+                                env=env, capture_output=True, text=True)
+            if pr.returncode != 0:
+                raise RuntimeError(pr.stderr[-300:])
+            ref = open(os.path.join(root, "ref.suit"), "rb").read()
+        except Exception as e:
+            agg.viol(f"C05:change/create-failed/{type(e).__name__}", f"{label}: {type(e).__name__}: {str(e)[:300]}")
+            return
+    if second != ref:
+        d = impl.diff_path(second, ref) or ("?", "?")
+        agg.viol(f"C05:stale-after-file-change/{form}", f"{label}: the second envelope does not describe the file as it is now (differs from a fresh process at {d[0]}: {d[1]})")
+    elif first == second:
+        raise RuntimeError(f"harness: changing the file had no effect on the envelope ({form})")
+    else:
+        agg.ok(key, "ok:follows-the-file", sample=case if case["order"] == "grow" and form == "inline-dependency-payload-path" else None)
+
+
 def plan(tier):
     return [
         CaseStage("file-references", lambda: file_cases(tier), run_file, disjoint=True, rule="form x field x alg x length x name x abs/rel"),
         CaseStage("hierarchies", lambda: hier_cases(tier), run_hier, rule="depth-3 hierarchies, inline/path per level, algorithm pairs"),
+        CaseStage("file-changed-between-creations", lambda: change_cases(tier), run_change, rule="9 reference forms x {grow, shrink}: second creation in the same process vs a fresh process"),
     ]
